@@ -516,6 +516,9 @@ class Model:
         else:
             deflv, (kind, params, body) = self.lookup(name, self.ctx)
         if params is None:
+            if not e[2] and not name.startswith('super.') and e[1] == name:
+                # an empty argument list on a rule without parameters: a plain reference
+                return self.call_rule(name, self.ctx, p)
             raise IllFormed('call of parameterless rule')
         args = {}
         pos_params = list(params)
